@@ -35,12 +35,14 @@ TEXT = {
         "technique": "Lean 4 proof (structural induction, mutual recursion over the filter tree, Brzozowski derivatives); exhaustive + random differential correspondence",
     },
     "C11": {
-        "level": "Theorems: for every prefix, delimiter and page size, every page holds at most maxResults entries, never repeats a prefix, and everything it reports is right "
-                 "(soundness); without delimiter the complete pagination theorem (tokens followed to the end yield exactly the names with the prefix, once, ascending, last page "
-                 "without token) for every sorted name set. The complete pagination theorem WITH delimiter is stated (FullStatement) but not proved in Lean: for it the check relies "
-                 "on the exhaustive correspondence run (all subsets of two 9-name universes x all prefixes x 4 delimiters x 4 page sizes, both stores).",
-        "note": COMMON_NOTE + " Partial: delimiter completeness across pages is covered by exhaustive correspondence, not by a theorem.",
-        "technique": "Lean 4 proof (fold invariants, induction on fuel) — partial for delimiters; exhaustive differential correspondence on both stores",
+        "level": "Theorem `full_statement`: for EVERY sorted set of non-empty names, every prefix, every delimiter (none, one byte, several bytes) and every page size >= 1, following nextPageToken "
+                 "until it is empty yields as items exactly the names that start with the prefix and have no delimiter after it, each once, in ascending order; as prefixes exactly the distinct "
+                 "rolled-up prefixes, each once; no page holds more than maxResults entries; the last page has no token. (Proof: what `collapse` computes depends only on the bytes up to the end of "
+                 "the first delimiter; names that roll up into one prefix are contiguous in a sorted list; a page consumes an initial segment made of whole blocks; the next cursor sits at a block "
+                 "end, so the skip rule drops nothing; induction over the number of names beyond the cursor.) Plus per-page soundness, and item metadata = the stored record. Tied to the code by "
+                 "the exhaustive enumeration of two 9-name universes (all subsets x all prefixes x 4 delimiters x 4 page sizes, both stores) and random programs.",
+        "note": COMMON_NOTE + " Names are assumed to be valid UTF-8 (the page token is a protobuf string) and non-empty.",
+        "technique": "Lean 4 proof (first-occurrence lemmas for multi-byte delimiters, block structure of sorted names, fold decomposition, induction over pages); exhaustive differential correspondence on both stores",
     },
     "C12": {
         "level": "Theorems: CheckAndMutateRow is, for every valid predicate tree, row state and pair of mutation lists, exactly 'matched = predicate yields a cell; apply the selected list "
